@@ -173,10 +173,18 @@ def copyRef (plain : Array Nat) (dist : Nat) : Nat → Array Nat
   | 0 => plain
   | n + 1 => copyRef (plain.push (plain.getD (plain.size - dist) 0)) dist n
 
-/-- DeflateReader::decode_block -/
+/-- DeflateReader::check_plain_text_size: plain-text positions are kept as `i32` everywhere
+    (PreflateInput, hash chains), so the reader refuses to grow a plain text that is already
+    longer than `i32::MAX - 65535`; a single step (literal, match, stored block) adds at most
+    65535 bytes. -/
+def PLAIN_LIMIT : Nat := 2147483647 - 65535
+
+/-- DeflateReader::decode_block; `check_plain_text_size()?` opens every iteration of the loop -/
 def decodeTokens (lt dt : List (Bits × Nat)) : Nat → Array Nat → Bits → R (List Token × Array Nat × Bits)
   | 0, _, _ => .error .fuel
-  | fuel + 1, plain, bs => do
+  | fuel + 1, plain, bs =>
+    if plain.size > PLAIN_LIMIT then .error .err
+    else do
       let (sym, bs) ← decodeSym lt bs
       if sym < 256 then do
         let (ts, plain, bs) ← decodeTokens lt dt fuel (plain.push sym) bs
@@ -261,6 +269,8 @@ def readBlock (plain : Array Nat) (bs : Bits) : R (Bool × Block × Array Nat ×
     let (len, bs) ← readBits 16 bs
     let (ilen, bs) ← readBits 16 bs
     if len + ilen ≠ 65535 then throw .err   -- (len ^ ilen) != 0xffff on 16-bit values
+    -- flush_buffer_to_byte_boundary(); check_plain_text_size()?; then the byte loop
+    if plain.size > PLAIN_LIMIT then throw .err
     let (data, bs) ← readBytes len bs
     .ok (last == 1, .stored pad data, pushAll plain data, bs)
   else if mode = 1 then do
